@@ -273,11 +273,19 @@ def run_one(ctx, exe, run, seed, tier, tag, replay_ops=None):
         rc, out = 124, 'harness timed out'
     shutil.rmtree(work, ignore_errors=True)
     info = dict(cmd=run['cmd'], seed=seed, tier=tier, harness_s=round(time.time() - t, 1))
+    trace = os.path.join(d, 'trace.txt')
     if rc != 0:
         ctx.broken.append('harness %s exited %d: %s' % (run['cmd'], rc, out[-500:]))
-        ctx.cov['runs'].append(info)
-        return d
-    trace = os.path.join(d, 'trace.txt')
+        # A fatal error of the Go runtime inside the real code (stack overflow cannot be recovered) kills
+        # the harness.  Harnesses that can meet one flush every operation line first: the trace then ends
+        # with the fatal operation, which is reported to model and judge as a panic of that operation.
+        fatal = rc == 2 and ('stack overflow' in out or 'fatal error' in out or 'goroutine stack exceeds' in out)
+        if not (fatal and os.path.exists(trace) and os.path.getsize(trace) > 0):
+            ctx.cov['runs'].append(info)
+            return d
+        with open(trace, 'a') as f:
+            f.write('> panic\n')
+        info['fatal'] = True
     drv = os.path.join(ctx.lean, '.lake', 'build', 'bin', 'mkdbdrv')
     model = os.path.join(d, 'model.txt')
     with open(trace) as fin, open(model, 'w') as fout:
